@@ -26,9 +26,7 @@ line, `-*` inside profile files, use.stable / package.use.stable (EAPI 9 only; d
 
 PayloadDict (no caller anywhere in pkgcore) gets a small sub-check of its own ("payloaddict:*" buckets).
 """
-import os
-
-from hypothesis import strategies as st
+import shutil
 
 from .. import core
 from ..gen import domaincfg
@@ -511,7 +509,13 @@ def run_dom(ctx, case, record=True):
         ctx.case(case, nontrivial=layers >= 2, classes=cl, key="d|" + core.jdump(case), n=len(spec["pkgs"]) * 2)
 
     def body():
-        b = domaincfg.build(ctx.fresh_dir("dom"), _strip_private(spec))
+        d = ctx.fresh_dir("dom")
+        try:
+            return evaluate(domaincfg.build(d, _strip_private(spec)))
+        finally:
+            shutil.rmtree(d, ignore_errors=True)  # keep the scratch area small (thousands of cases per task)
+
+    def evaluate(b):
         dom = b.domain
         for idx, (pkg, pspec) in enumerate(zip(b.pkgs, spec["pkgs"])):
             iuse = pspec["iuse"]
@@ -676,9 +680,9 @@ def plan(tier, seed):
         t.append({"task": "payload", "examples": 300})
     else:
         for i in range(16):
-            t.append({"task": "cdd", "examples": 40000})
+            t.append({"task": "cdd", "examples": 30000})
         for i in range(15):
-            t.append({"task": "dom", "examples": 6000})
+            t.append({"task": "dom", "examples": 5000})
         t.append({"task": "payload", "examples": 2000})
     return t
 
